@@ -976,11 +976,11 @@ orc_parse_sanity_check (OrcParser *parser, OrcProgram *program)
    * have built it (the compiler has its own "used" tracking) */
   orc_bool used[ORC_N_VARIABLES] = { FALSE };
 
-  for(i=0;i<=ORC_VAR_T15;i++) {
+  for(i=0;i<=ORC_VAR_T16;i++) {
     if (program->vars[i].size == 0) {
       continue;
     }
-    for(j=i+1;j<=ORC_VAR_T15;j++) {
+    for(j=i+1;j<=ORC_VAR_T16;j++) {
       if (program->vars[j].size == 0) {
         continue;
       }
